@@ -1,0 +1,379 @@
+//! Verification hooks (only compiled with `--cfg emmyluals_emmylua_analyzer_rust_verif`).
+//!
+//! Add-only instrumentation used by the external proof/correspondence harness:
+//! * `dump_ir` / `dump_docs`: the formatter IR of a source text as an s-expression,
+//! * `print_ir`: run the real `Printer` on an IR given as an s-expression,
+//! * `range`: public access to the private range-formatting helpers.
+//!
+//! s-expression grammar (strings are JSON string literals):
+//!   doc   ::= (T str) | (N str) | (K str) | (S str)          Text / SourceNode / SourceToken / SyntaxToken
+//!           | HL | SL | SE | SP                               HardLine / SoftLine / SoftLineOrEmpty / Space
+//!           | (I doc*) | (G bool id doc*) | (L doc*)          Indent / Group / List
+//!           | (IB id doc doc)                                 IfBreak id break flat
+//!           | (F doc*) | (LS doc*) | (AG entry*)              Fill / LineSuffix / AlignGroup
+//!   entry ::= (A (doc*) (doc*) opt) | (R (doc*) opt)          Aligned before after trailing / Line content trailing
+//!   opt   ::= - | (doc*)        id ::= - | <u32>        bool ::= 0 | 1
+use std::rc::Rc;
+
+use emmylua_parser::{LuaParser, ParserConfig};
+use smol_str::SmolStr;
+
+use crate::ir::{AlignEntry, AlignGroupData, DocIR, GroupId, syntax_text_trimmed_end};
+use crate::printer::Printer;
+use crate::{LuaFormatConfig, SourceText, formatter};
+
+/// IR of `source` under `config`; `None` when the text has syntax errors (the formatter then
+/// returns the text unchanged and never builds an IR).
+pub fn dump_ir(source: &SourceText, config: &LuaFormatConfig) -> Option<String> {
+    let tree = LuaParser::parse(source.text, ParserConfig::with_level(source.level));
+    if tree.has_syntax_errors() {
+        return None;
+    }
+    let ctx = formatter::FormatContext::new(config);
+    let chunk = tree.get_chunk_node();
+    let ir = formatter::format_chunk(&ctx, &chunk);
+    Some(dump_docs(&ir))
+}
+
+pub fn dump_docs(docs: &[DocIR]) -> String {
+    let mut out = String::new();
+    out.push('(');
+    write_docs(docs, &mut out);
+    out.push(')');
+    out
+}
+
+fn write_str(s: &str, out: &mut String) {
+    out.push_str(&serde_json::to_string(s).unwrap_or_default());
+}
+
+fn write_docs(docs: &[DocIR], out: &mut String) {
+    for (i, d) in docs.iter().enumerate() {
+        if i > 0 {
+            out.push(' ');
+        }
+        write_doc(d, out);
+    }
+}
+
+fn write_id(id: &Option<GroupId>, out: &mut String) {
+    match id {
+        Some(g) => out.push_str(&g.0.to_string()),
+        None => out.push('-'),
+    }
+}
+
+fn write_opt(docs: &Option<Vec<DocIR>>, out: &mut String) {
+    match docs {
+        Some(d) => {
+            out.push('(');
+            write_docs(d, out);
+            out.push(')');
+        }
+        None => out.push('-'),
+    }
+}
+
+fn write_doc(doc: &DocIR, out: &mut String) {
+    match doc {
+        DocIR::Text(s) => {
+            out.push_str("(T ");
+            write_str(s, out);
+            out.push(')');
+        }
+        DocIR::SourceNode { node, trim_end } => {
+            let text = node.text();
+            let s = if *trim_end {
+                let end = syntax_text_trimmed_end(&text);
+                text.slice(..end).to_string()
+            } else {
+                text.to_string()
+            };
+            out.push_str("(N ");
+            write_str(&s, out);
+            out.push(')');
+        }
+        DocIR::SourceToken(token) => {
+            out.push_str("(K ");
+            write_str(token.text(), out);
+            out.push(')');
+        }
+        DocIR::SyntaxToken(kind) => {
+            out.push_str("(S ");
+            write_str(kind.syntax_text().unwrap_or(""), out);
+            out.push(')');
+        }
+        DocIR::HardLine => out.push_str("HL"),
+        DocIR::SoftLine => out.push_str("SL"),
+        DocIR::SoftLineOrEmpty => out.push_str("SE"),
+        DocIR::Space => out.push_str("SP"),
+        DocIR::Indent(c) => {
+            out.push_str("(I ");
+            write_docs(c, out);
+            out.push(')');
+        }
+        DocIR::Group {
+            contents,
+            should_break,
+            id,
+        } => {
+            out.push_str("(G ");
+            out.push(if *should_break { '1' } else { '0' });
+            out.push(' ');
+            write_id(id, out);
+            out.push(' ');
+            write_docs(contents, out);
+            out.push(')');
+        }
+        DocIR::List(c) => {
+            out.push_str("(L ");
+            write_docs(c, out);
+            out.push(')');
+        }
+        DocIR::IfBreak {
+            break_contents,
+            flat_contents,
+            group_id,
+        } => {
+            out.push_str("(IB ");
+            write_id(group_id, out);
+            out.push(' ');
+            write_doc(break_contents, out);
+            out.push(' ');
+            write_doc(flat_contents, out);
+            out.push(')');
+        }
+        DocIR::Fill { parts } => {
+            out.push_str("(F ");
+            write_docs(parts, out);
+            out.push(')');
+        }
+        DocIR::LineSuffix(c) => {
+            out.push_str("(LS ");
+            write_docs(c, out);
+            out.push(')');
+        }
+        DocIR::AlignGroup(g) => {
+            out.push_str("(AG");
+            for e in &g.entries {
+                out.push(' ');
+                match e {
+                    AlignEntry::Aligned {
+                        before,
+                        after,
+                        trailing,
+                    } => {
+                        out.push_str("(A (");
+                        write_docs(before, out);
+                        out.push_str(") (");
+                        write_docs(after, out);
+                        out.push_str(") ");
+                        write_opt(trailing, out);
+                        out.push(')');
+                    }
+                    AlignEntry::Line { content, trailing } => {
+                        out.push_str("(R (");
+                        write_docs(content, out);
+                        out.push_str(") ");
+                        write_opt(trailing, out);
+                        out.push(')');
+                    }
+                }
+            }
+            out.push(')');
+        }
+    }
+}
+
+// ---------------------------------------------------------------- reading an IR back
+
+#[derive(Debug, Clone)]
+enum Sexp {
+    Atom(String),
+    Str(String),
+    List(Vec<Sexp>),
+}
+
+fn parse_sexp(src: &str) -> Result<Sexp, String> {
+    let bytes = src.as_bytes();
+    let mut pos = 0usize;
+    let v = parse_sexp_at(src, bytes, &mut pos)?;
+    while pos < bytes.len() && bytes[pos].is_ascii_whitespace() {
+        pos += 1;
+    }
+    if pos != bytes.len() {
+        return Err(format!("trailing input at {pos}"));
+    }
+    Ok(v)
+}
+
+fn parse_sexp_at(src: &str, bytes: &[u8], pos: &mut usize) -> Result<Sexp, String> {
+    while *pos < bytes.len() && bytes[*pos].is_ascii_whitespace() {
+        *pos += 1;
+    }
+    if *pos >= bytes.len() {
+        return Err("unexpected end".into());
+    }
+    match bytes[*pos] {
+        b'(' => {
+            *pos += 1;
+            let mut items = Vec::new();
+            loop {
+                while *pos < bytes.len() && bytes[*pos].is_ascii_whitespace() {
+                    *pos += 1;
+                }
+                if *pos >= bytes.len() {
+                    return Err("unclosed list".into());
+                }
+                if bytes[*pos] == b')' {
+                    *pos += 1;
+                    return Ok(Sexp::List(items));
+                }
+                items.push(parse_sexp_at(src, bytes, pos)?);
+            }
+        }
+        b')' => Err(format!("unexpected ) at {}", *pos)),
+        b'"' => {
+            let start = *pos;
+            *pos += 1;
+            while *pos < bytes.len() {
+                match bytes[*pos] {
+                    b'\\' => *pos += 2,
+                    b'"' => {
+                        *pos += 1;
+                        let lit = &src[start..*pos];
+                        let s: String = serde_json::from_str(lit).map_err(|e| e.to_string())?;
+                        return Ok(Sexp::Str(s));
+                    }
+                    _ => *pos += 1,
+                }
+            }
+            Err("unclosed string".into())
+        }
+        _ => {
+            let start = *pos;
+            while *pos < bytes.len()
+                && !bytes[*pos].is_ascii_whitespace()
+                && bytes[*pos] != b'('
+                && bytes[*pos] != b')'
+            {
+                *pos += 1;
+            }
+            Ok(Sexp::Atom(src[start..*pos].to_string()))
+        }
+    }
+}
+
+fn to_docs(items: &[Sexp]) -> Result<Vec<DocIR>, String> {
+    items.iter().map(to_doc).collect()
+}
+
+fn to_id(s: &Sexp) -> Result<Option<GroupId>, String> {
+    match s {
+        Sexp::Atom(a) if a == "-" => Ok(None),
+        Sexp::Atom(a) => a.parse::<u32>().map(|n| Some(GroupId(n))).map_err(|e| e.to_string()),
+        _ => Err("bad id".into()),
+    }
+}
+
+fn to_opt(s: &Sexp) -> Result<Option<Vec<DocIR>>, String> {
+    match s {
+        Sexp::Atom(a) if a == "-" => Ok(None),
+        Sexp::List(l) => Ok(Some(to_docs(l)?)),
+        _ => Err("bad optional doc list".into()),
+    }
+}
+
+fn to_list(s: &Sexp) -> Result<Vec<DocIR>, String> {
+    match s {
+        Sexp::List(l) => to_docs(l),
+        _ => Err("expected doc list".into()),
+    }
+}
+
+fn to_doc(s: &Sexp) -> Result<DocIR, String> {
+    match s {
+        Sexp::Atom(a) => match a.as_str() {
+            "HL" => Ok(DocIR::HardLine),
+            "SL" => Ok(DocIR::SoftLine),
+            "SE" => Ok(DocIR::SoftLineOrEmpty),
+            "SP" => Ok(DocIR::Space),
+            other => Err(format!("unknown atom {other}")),
+        },
+        Sexp::Str(_) => Err("bare string".into()),
+        Sexp::List(l) => {
+            let Some(Sexp::Atom(head)) = l.first() else {
+                return Err("list without head".into());
+            };
+            let rest = &l[1..];
+            match head.as_str() {
+                // every atom kind prints its text; they are read back as Text
+                "T" | "N" | "K" | "S" => match rest {
+                    [Sexp::Str(s)] => Ok(DocIR::Text(SmolStr::new(s))),
+                    _ => Err("bad text".into()),
+                },
+                "I" => Ok(DocIR::Indent(to_docs(rest)?)),
+                "L" => Ok(DocIR::List(to_docs(rest)?)),
+                "F" => Ok(DocIR::Fill {
+                    parts: to_docs(rest)?,
+                }),
+                "LS" => Ok(DocIR::LineSuffix(to_docs(rest)?)),
+                "G" => {
+                    if rest.len() < 2 {
+                        return Err("bad group".into());
+                    }
+                    let should_break = matches!(&rest[0], Sexp::Atom(a) if a == "1");
+                    Ok(DocIR::Group {
+                        contents: to_docs(&rest[2..])?,
+                        should_break,
+                        id: to_id(&rest[1])?,
+                    })
+                }
+                "IB" => {
+                    if rest.len() != 3 {
+                        return Err("bad if-break".into());
+                    }
+                    Ok(DocIR::IfBreak {
+                        break_contents: Rc::new(to_doc(&rest[1])?),
+                        flat_contents: Rc::new(to_doc(&rest[2])?),
+                        group_id: to_id(&rest[0])?,
+                    })
+                }
+                "AG" => {
+                    let mut entries = Vec::new();
+                    for e in rest {
+                        let Sexp::List(el) = e else {
+                            return Err("bad align entry".into());
+                        };
+                        match el.as_slice() {
+                            [Sexp::Atom(h), b, a, t] if h == "A" => entries.push(AlignEntry::Aligned {
+                                before: to_list(b)?,
+                                after: to_list(a)?,
+                                trailing: to_opt(t)?,
+                            }),
+                            [Sexp::Atom(h), c, t] if h == "R" => entries.push(AlignEntry::Line {
+                                content: to_list(c)?,
+                                trailing: to_opt(t)?,
+                            }),
+                            _ => return Err("bad align entry".into()),
+                        }
+                    }
+                    Ok(DocIR::AlignGroup(Rc::new(AlignGroupData { entries })))
+                }
+                other => Err(format!("unknown head {other}")),
+            }
+        }
+    }
+}
+
+/// Run the real printer on an IR given as an s-expression (a list of docs).
+pub fn print_ir(sexp: &str, config: &LuaFormatConfig) -> Result<String, String> {
+    let parsed = parse_sexp(sexp)?;
+    let docs = to_list(&parsed)?;
+    Ok(Printer::new(config).print(&docs))
+}
+
+/// Public access to the range-formatting helpers of `formatter::range_format`.
+pub mod range {
+    pub use crate::formatter::range_format::verif_access::*;
+}
